@@ -50,6 +50,8 @@ type httpAnalysis struct {
 	viol    map[*types.Func][]httpViolation
 	ops     map[*types.Func]int // operate events seen
 	resp    map[*types.Func]int // respond events seen
+	// extraOperate lets the positive controls name an operate event
+	extraOperate func(name string) bool
 }
 
 func newHTTPAnalysis(c *Ctx, rel string) *httpAnalysis {
@@ -110,6 +112,8 @@ func (h *httpAnalysis) event(call *ast.CallExpr) (string, *types.Func) {
 	fn := calleeObj(h.pkg, call)
 	switch {
 	case isRPCClientCall(name):
+		return "operate", nil
+	case h.extraOperate != nil && h.extraOperate(name):
 		return "operate", nil
 	case strings.HasSuffix(name, "adder/adderutils.AddMultipartHTTPHandler"):
 		return "add", nil
